@@ -25,7 +25,7 @@ THEOREM ArithSafe ==
   <1>2. CASE op = "SUB" BY <1>2, ModRange DEF Arith, Addr
   <1>3. CASE op = "MUL"
     <2>1. y * x \in Int BY DEF Addr
-    <2> QED BY <1>3, <2>1, ModRange DEF Arith, Addr
+    <2> QED BY <1>3, <2>1, ModRange DEF Arith, MulMod, Addr
   <1>4. CASE op = "DIV"
     <2>1. x \in Nat /\ x >= 1 /\ y \in Nat BY <1>4 DEF Addr
     <2>2. y \div x \in 0..y BY <2>1, DivRange
